@@ -185,6 +185,17 @@ def f_129808():
     return m is not None and m.id == "dscCallInformation", f"result {m.id if m else None}"
 
 
+# ---------------------------------------------------------------- C09
+@finding("C09/number-corrupted/129556.cna", "C09")
+def f_one_bit_none():
+    from nmea2000.utils import encode_number
+    try:
+        v = encode_number(None, 1, False, 1)
+    except ValueError:
+        return True, "absent value for a 1-bit field is rejected"
+    return False, f"encode_number(None, 1, ...) = {v}: an absent value silently becomes the value 1 of the 1-bit field"
+
+
 # ---------------------------------------------------------------- C10
 @finding("C10/include-by-id", "C10")
 def f_include_id():
